@@ -435,6 +435,11 @@ def run_C09(ctx, rng, tier, res, known):
             if e < gens.I32MAX:
                 pairs.append((gens.pf(f, str(w), "", e), gens.pf(f, str(w), "", e + 1), "P-q,q+1"))
             pairs.append((gens.pf(f, str(w), "", e), gens.pf(f, str(w), "0" * 30 + "1", e), "P-far-digit"))
+            if w >= 1:
+                # just below w (another algorithm decides it) versus w itself
+                lo = str(w - 1).lstrip("0")
+                pairs.append((gens.pf(f, lo, "9", e), gens.pf(f, str(w), "", e), "P-below,w"))
+                pairs.append((gens.pf(f, lo, "9" * 25, e), gens.pf(f, str(w), "", e), "P-far-below,w"))
         # around boundaries: below / exact / above
         strata = gens.float_strata(rng, f, 3)
         rng.shuffle(strata)
